@@ -399,7 +399,7 @@ def units(tier, seed):
         for k in (-1, 0, 1, 2):
             add('tril/%s/k=%d' % (shp, k), 'h_shapeop', op='tril', shape=shp, D=D, P=P, arg=k)
             add('triu/%s/k=%d' % (shp, k), 'h_shapeop', op='triu', shape=shp, D=D, P=P, arg=k)
-    for shp in [(2, 2), (3, 3)]:
+    for shp in [(2, 2), (3, 3), (5, 2), (2, 5), (4, 1), (3, 2)]:
         add('trace/%s' % (shp,), 'h_shapeop', op='trace', shape=shp, D=D, P=P)
     for tshape in [(2,), (2, 3), (1,)]:
         add('zeros(%s, dtype=x)' % (tshape,), 'h_shapeop', op='zeros', shape=(2,), D=D, P=P, arg=tshape)
